@@ -577,8 +577,7 @@ Definition mac_tbl (tbl : list (bytes * bytes)) (fields : bytes) : bytes :=
        by the model's own writer (crash cases): only "a tag verifies iff it was computed
        over the same fields" matters there *)
 Definition mac_cheap (fields : bytes) : bytes :=
-  let h := fold_left (fun h b => (h * 1099511628211 + b + 1) mod 18446744073709551557) fields 14695981039346656037 in
-  le_bytes 8 h ++ le_bytes 8 (h / 7) ++ le_bytes 8 (h / 11) ++ le_bytes 8 (h / 13).
+  le_bytes 8 (fold_left N.add fields (len fields)) ++ repeat 0 24.
 
 (* ---------------------------------------------------------------- comparison helpers *)
 Definition opt_bytes_eqb (a b : option bytes) : bool :=
